@@ -224,11 +224,18 @@ def targets_leg(ck, cases, expected, meta, tier):
     pool = [c for c in cases if c['role'] == 'server' and meta[c['id']][2] in ('sized', 'unknown-terrapin-shape', 'twice', 'same-name-two-categories')]
     pool += [rating.mk_case(950000, kex=['curve25519-sha256'], key=['ssh-ed25519', 'rsa-sha2-256'], enc=['chacha20-poly1305@openssh.com', 'aes128-cbc'],
                             mac=['hmac-sha2-256-etm@openssh.com', 'hmac-sha1'], hk={'rsa-sha2-256': (1024, '', 0)})]
-    extra = rating.evaluate(ck, pool[-1:])
+    # the same algorithms in different contexts, one after the other: what was noted for the first must not show on the second
+    ctx = [rating.mk_case(950001, kex=['curve25519-sha256'], key=['ssh-ed25519', 'ssh-rsa'], enc=['chacha20-poly1305@openssh.com', 'aes128-cbc', 'aes256-ctr'],
+                          mac=['umac-64-etm@openssh.com', 'hmac-sha2-256-etm@openssh.com'], hk={'ssh-rsa': (1024, '', 0)}),
+           rating.mk_case(950002, kex=['curve25519-sha256', 'kex-strict-s-v00@openssh.com'], key=['ssh-ed25519', 'ssh-rsa'],
+                          enc=['chacha20-poly1305@openssh.com', 'aes128-cbc', 'aes256-ctr'], mac=['umac-64-etm@openssh.com', 'hmac-sha2-256-etm@openssh.com'],
+                          hk={'ssh-rsa': (4096, '', 0)}),
+           rating.mk_case(950003, kex=['curve25519-sha256'], key=['ssh-ed25519'], enc=['aes128-cbc', 'aes256-ctr'], mac=['hmac-sha2-256', 'umac-64@openssh.com'])]
+    extra = rating.evaluate(ck, pool[-1:] + ctx)
     exp = dict(expected)
     exp.update(extra)
     pool = pool[:(12 if tier == 'quick' else 60)] + pool[-1:]
-    groups = [pool[i:i + 3] for i in range(0, len(pool), 3)]
+    groups = [pool[i:i + 3] for i in range(0, len(pool), 3)] + [ctx, list(reversed(ctx)), [ctx[0], ctx[2], ctx[1]]]
     scs = []
     for g in groups:
         for threads in (1, 2):
